@@ -327,7 +327,10 @@ def alternatives(pm: ProgramModel, ctx: Ctx) -> None:
     import ast as _ast
     par = pm.env_unit("uvl.UVLPythonParser")
     ru = pm.unit("uvl_reader")
-    mentioned = {n.attr for n in _ast.walk(ru.tree) if isinstance(n, _ast.Attribute)}
+    # named in the reader module or in a package module its code was moved to
+    mentioned = {n.attr for u_ in pm.pkg_units() if "/transformations/" in u_.path for n in _ast.walk(u_.tree)
+                 if isinstance(n, _ast.Attribute)} | \
+                {n.id for u_ in pm.pkg_units() if "/transformations/" in u_.path for n in _ast.walk(u_.tree) if isinstance(n, _ast.Name)}
     rules = {"GroupContext": 5, "ConstraintContext": 8, "ExpressionContext": 10, "EquationContext": 6,
              "AggregateFunctionContext": 4, "StringAggregateFunctionContext": 1,
              "NumericAggregateFunctionContext": 2}
